@@ -165,3 +165,23 @@ Inductive tr_stmt :=
 | TRNewHeaders                    (* let mut headers = HeaderList::new(); *)
 | TRForLinesParsePush             (* for line in lines { let header = Self::parse_header_line(line)?; headers.push(header); } *)
 | TROkSelf.                       (* Ok(Self { method, url, headers }) *)
+
+(* HttpConn::read_body_to_vec / read_body_to_file (src/http_conn.rs): the arms of `match self.read_state` *)
+Inductive rb_err := REBodyNotAvailable | REUnsupportedTransferEncoding | REBodyTooLong | REDisconnected
+                  | REInvalidContentLength | REOther.
+Inductive rb_pat :=
+| RPHead                        (* ReadState::Head *)
+| RPChunkedOrGzip               (* ReadState::Body { chunked: true, .. } | ReadState::Body { gzip: true, .. } *)
+| RPKnownOverMax                (* ReadState::Body { len: Some(len), chunked: false, gzip: false, .. } if len > max_len *)
+| RPKnown                       (* ReadState::Body { len: Some(len), expect_continue, chunked: false, gzip: false } *)
+| RPUnknown                     (* ReadState::Body { len: None, expect_continue, chunked: false, gzip: false } *)
+| RPShutdown.                   (* ReadState::Shutdown *)
+Inductive rb_stmt :=
+| RSTryFromLen (e : rb_err)     (* let len_usize = usize::try_from(len_u64).map_err(|_| HttpError::e)?; *)
+| RSContinueIfExpect            (* if expect_continue { self.write_http_continue().await?; } *)
+| RSSetState (head : bool)      (* self.read_state = ReadState::Head (true) / ReadState::Shutdown (false); *)
+| RSReadKnown (to_file : bool)  (* let result = read_http_body_to_vec / _to_file(buf.chain(stream), len ..).await; *)
+| RSShutdownIfErr               (* if result.is_err() { self.read_state = ReadState::Shutdown; } *)
+| RSResult                      (* result *)
+| RSReadUnknown (to_file : bool). (* read_http_unsized_body_to_vec / _to_file(buf.chain(stream) ..).await *)
+Inductive rb_arm := RAErr (e : rb_err) | RABody (stmts : list rb_stmt).
